@@ -2,6 +2,7 @@
 // Reads case lines on stdin (or from the file given as 2nd argument), writes one observation line
 // per case on stdout. The first field of a case line selects the executor.
 mod cv;
+mod mq;
 mod rp;
 mod util;
 
@@ -64,6 +65,7 @@ fn main() {
         let obs = match f[0] {
             "rp" => rp::run_case(&f),
             "cv" => cv::run_case(&mut servers, &f),
+            "mq" => mq::run_case(&f),
             other => format!("UNKNOWN-EXECUTOR {}", other),
         };
         writeln!(out, "{}", obs).unwrap();
